@@ -60,6 +60,8 @@ def base_axioms(heap):
             seen.add(u)
     for key, f in heapops._card_fns.items():
         out += heapops.card_axioms(f.domain(0).domain())
+    for axs in ops.SEQ_AXIOMS.values():
+        out += axs
     return out
 
 
@@ -193,6 +195,12 @@ def _verify_case(c, fnode, case, label, res, lemma_body=None):
             decl_name = next((d for d in c.raises if exc_subclass(e.cls, d)), None)
             site = ex.site(out.node if out.node is not None else getattr(e, "node", None))
             if decl_name is None and e.cls in c.allow_exc:
+                xp = c.expost.get(e.cls) if isinstance(c.expost.get(e.cls), dict) else None
+                if xp:
+                    env = dict(s.old_env)
+                    sc = spec.Scope(env, s.heap, s.heap.old(), s.old_env, s.alloc, s.alloc0, s.ghost)
+                    for lab, text in xp.items():
+                        ex.oblige(s, f"expost[{e.cls}].{lab}@{site}", spec.sv_bool(text, sc))
                 continue
             if decl_name is None:
                 ex.oblige(s, f"no-{e.cls}@{site}", z3.BoolVal(False),
@@ -202,6 +210,8 @@ def _verify_case(c, fnode, case, label, res, lemma_body=None):
                 env = dict(s.old_env)
                 sc = spec.Scope(env, s.heap, s.heap.old(), s.old_env, s.alloc, s.alloc0, s.ghost)
                 for lab, text in c.expost.items():
+                    if isinstance(text, dict):
+                        continue
                     ex.oblige(s, f"expost.{lab}@{site}", spec.sv_bool(text, sc))
                 if c.expost or c.exc_modifies is not None:
                     xt = resolve_targets(c.exc_modifies or [], sc_entry)
